@@ -33,7 +33,7 @@ def die(msg):
 
 
 # ------------------------------------------------------------------ C expression parser
-TOK = re.compile(r"\s*(?:(\d+)(?:ULL|UL|U|L|LL)?|([A-Za-z_][A-Za-z_0-9]*)|(\|\||&&|==|!=|<=|>=|[-+*/&~!<>?:(),\[\]]))")
+TOK = re.compile(r"\s*(?:(\d+)(?:ULL|UL|U|L|LL)?|([A-Za-z_][A-Za-z_0-9]*)|(\|\||&&|==|!=|<=|>=|[-+*/%&~!<>?:(),\[\]]))")
 
 
 def tokenize(s):
@@ -94,7 +94,7 @@ class P:
     def eq(self): return self.binl(self.rel, ("==", "!="))
     def rel(self): return self.binl(self.add, ("<", ">", "<=", ">="))
     def add(self): return self.binl(self.mul, ("+", "-"))
-    def mul(self): return self.binl(self.unary, ("*", "/"))
+    def mul(self): return self.binl(self.unary, ("*", "/", "%"))
 
     def unary(self):
         if self.isop("~", "-", "!"):
@@ -142,7 +142,7 @@ def parse(s):
     return e
 
 
-CASTS = re.compile(r"\(\s*(?:unsigned long long|unsigned long|size_t|int|JDIMENSION)\s*\)")
+CASTS = re.compile(r"\(\s*(?:unsigned long long|unsigned long|size_t|int|long|JDIMENSION|JUINTPTR)\s*\)")
 TABLES = {"tjMCUWidth", "tjMCUHeight"}
 CONSTS = {"TJ_NUMSAMP", "INT_MAX", "INT_MIN", "DCTSIZE", "D_MAX_BLOCKS_IN_MCU"}
 
@@ -169,6 +169,10 @@ def emit(e, mode, checks, params):
             if mode == "int":
                 checks.append(r)
             return r, False
+        if e[1] == "jdiv_round_up" and len(e[2]) == 2:
+            a, _ = emit(e[2][0], mode, checks, params)
+            b, _ = emit(e[2][1], mode, checks, params)
+            return "(jdiv_round_up_c %s %s)" % (a, b), False
         raise ValueError("unsupported call " + e[1])
     if k == "ite":
         c, cb = emit(e[1], mode, checks, params)
@@ -180,6 +184,8 @@ def emit(e, mode, checks, params):
         r = "(Z.lnot %s)" % a if k == "u~" else "(- %s)" % a
         if mode == "ull":
             r = "(u64 %s)" % r
+        elif mode == "u32":
+            r = "(u32 %s)" % r
         elif mode == "int" and k == "u-":
             checks.append(r)
         return r, False
@@ -192,9 +198,13 @@ def emit(e, mode, checks, params):
         r = "(%s %s %s)" % (a, k, b)
         if mode == "ull":
             r = "(u64 %s)" % r
+        elif mode == "u32":
+            r = "(u32 %s)" % r
         elif mode == "int":
             checks.append(r)
         return r, False
+    if k == "%":
+        return "(Z.rem %s %s)" % (a, b), False
     if k == "/":
         return "(Z.quot %s %s)" % (a, b), False
     if k == "&":
@@ -317,11 +327,27 @@ def func_body(name):
     return C[i:j]
 
 
+def lib_body(path, name):
+    text = open(repo + "/src/" + path).read()
+    m = re.search(r"^%s\s*\(" % re.escape(name), text, re.M)
+    if not m:
+        die("%s: function %s not found" % (path, name))
+    i = text.find("\n{", m.end())
+    depth, j = 1, i + 2
+    while depth:
+        if j >= len(text):
+            die("unbalanced braces in " + name)
+        depth += text[j] == "{"
+        depth -= text[j] == "}"
+        j += 1
+    return text[i:j]
+
+
 class Body:
     """ordered search of statements inside one function body"""
 
-    def __init__(self, fn):
-        self.fn, self.b, self.pos = fn, func_body(fn), 0
+    def __init__(self, fn, path=None):
+        self.fn, self.b, self.pos = fn, (lib_body(path, fn) if path else func_body(fn)), 0
 
     def find(self, rx, what, flags=re.S):
         m = re.compile(rx, flags).search(self.b, self.pos)
@@ -381,7 +407,8 @@ OUT.append("Definition INT_MAX : Z := 2147483647.   (* limits.h; int is 32 bits 
 OUT.append("Definition INT_MIN : Z := -2147483648.")
 OUT.append("Definition DCTSIZE : Z := 8.")
 OUT.append("Definition in_int (x : Z) : bool := (INT_MIN <=? x) && (x <=? INT_MAX).")
-OUT.append("Definition u64 (x : Z) : Z := x mod 18446744073709551616.   (* unsigned long long wrap-around *)\n")
+OUT.append("Definition u64 (x : Z) : Z := x mod 18446744073709551616.   (* unsigned long long wrap-around *)")
+OUT.append("Definition u32 (x : Z) : Z := x mod 4294967296.   (* unsigned int (JDIMENSION) wrap-around *)\n")
 JL = open(repo + "/src/jpeglib.h").read()
 m = re.search(r"#define\s+D_MAX_BLOCKS_IN_MCU\s+(\d+)", JL)
 if not m:
@@ -632,6 +659,92 @@ B.find(r"pw\[i\] = tj3YUVPlaneWidth\(i, dinfo->output_width, this->subsamp\);" +
 B.find(r"if \(iw\[i\] != pw\[i\] \|\| ih != ph\[i\]\) usetmpbuf = 1;", "usetmpbuf test")
 
 
+
+# ------------------------------------------------------------------ library side: raw-data API, blocks per component, output size
+B = Body("jdiv_round_up", "jutils.c")
+g = B.find(r"return " + E + r";", "return (a + b - 1L) / b")
+cdef("jdiv_round_up_c", ["a", "b"], g.group(1), "math", "jutils.c jdiv_round_up")
+for path, fn, short in (("jdinput.c", "initial_setup", "ljd"), ("jcmaster.c", "initial_setup", "ljc")):
+    B = Body(fn, path)
+    g = B.find(r"compptr->width_in_blocks = \(JDIMENSION\)" + W + E + r";" + W + r"compptr->height_in_blocks = \(JDIMENSION\)" + W + E + r";", "blocks per component")
+    unit = "data_unit"
+    iwn, ihn = ("image_width", "image_height") if short == "ljd" else ("_jpeg_width", "_jpeg_height")   # jcmaster: _jpeg_width/_jpeg_height are macros for image_width/height in the v6b ABI
+    cdef(short + "_wib", [iwn, "h_samp_factor", "max_h_samp_factor", unit], g.group(1), "math", path + " " + fn + ": width_in_blocks")
+    cdef(short + "_hib", [ihn, "v_samp_factor", "max_v_samp_factor", unit], g.group(2), "math", path + " " + fn + ": height_in_blocks")
+    g = B.find(r"cinfo->total_iMCU_rows = \(JDIMENSION\)" + W + E + r";", "total_iMCU_rows")
+    cdef(short + "_imcu_rows", [ihn, "max_v_samp_factor", unit], g.group(1), "math", path + " " + fn + ": total_iMCU_rows")
+for path, short in (("jdinput.c", "ljd"), ("jcmaster.c", "ljc")):
+    B = Body("per_scan_setup", path)
+    g = B.find(r"tmp = \(int\)\(" + E + r"\);" + W + r"if \(" + E + r"\) tmp = " + E + r";" + W + r"compptr->last_row_height = tmp;", "last_row_height")
+    cdef(short + "_last_row_height", ["height_in_blocks", "v_samp_factor"], "(%s) == 0 ? (%s) : (%s)" % (g.group(1), g.group(3), g.group(1)), "math",
+         path + " per_scan_setup: real block rows of the last iMCU row")
+    if " ".join(g.group(2).split()) != "tmp == 0":
+        die(path + ": last_row_height test changed: " + g.group(2))
+B = Body("decompress_data", "jdcoefct.c")
+B.find(r"JDIMENSION last_iMCU_row = cinfo->total_iMCU_rows - 1;", "last_iMCU_row")
+B.find(r"if \(cinfo->output_iMCU_row < last_iMCU_row\)" + W + r"block_rows = compptr->v_samp_factor;", "full iMCU rows")
+g = B.find(r"block_rows = \(int\)\(" + E + r"\);" + W + r"if \(block_rows == 0\) block_rows = " + E + r";", "block rows of the last iMCU row")
+cdef("ljd_block_rows_last", ["height_in_blocks", "v_samp_factor"], "(%s) == 0 ? (%s) : (%s)" % (g.group(1), g.group(2), g.group(1)), "math",
+     "jdcoefct.c decompress_data: block rows decoded in the last iMCU row")
+B.find(r"for \(block_row = 0; block_row < block_rows; block_row\+\+\) \{", "block row loop")
+B.find(r"output_ptr \+= compptr->_DCT_scaled_size;", "one block row = _DCT_scaled_size sample rows")
+# jpeg_read_raw_data / jpeg_write_raw_data
+B = Body("_jpeg_read_raw_data", "jdapistd.c")
+g = B.find(r"if \(" + E + r"\) \{" + W + r"WARNMS\(cinfo, JWRN_TOO_MUCH_DATA\);" + W + r"return 0;", "too-much-data test")
+cdef("rr_done", ["output_scanline", "output_height"], g.group(1), "math", "jpeg_read_raw_data: nothing left to return")
+g = B.find(r"lines_per_iMCU_row = " + E + r";" + W + r"if \(" + E + r"\)" + W + r"ERREXIT\(cinfo, JERR_BUFFER_SIZE\);", "lines_per_iMCU_row and buffer test")
+cdef("rr_lines", ["max_v_samp_factor", "_min_DCT_scaled_size"], g.group(1), "math", "jpeg_read_raw_data: lines_per_iMCU_row")
+cdef("rr_toosmall", ["max_lines", "lines_per_iMCU_row"], g.group(2), "math", "jpeg_read_raw_data: JERR_BUFFER_SIZE test")
+B.find(r"cinfo->output_scanline \+= lines_per_iMCU_row;" + W + r"return lines_per_iMCU_row;", "output_scanline advances by one iMCU row")
+B = Body("_jpeg_write_raw_data", "jcapistd.c")
+g = B.find(r"if \(" + E + r"\) \{" + W + r"WARNMS\(cinfo, JWRN_TOO_MUCH_DATA\);" + W + r"return 0;", "too-much-data test")
+cdef("wr_done", ["next_scanline", "image_height"], g.group(1), "math", "jpeg_write_raw_data: nothing left to accept")
+g = B.find(r"lines_per_iMCU_row = " + E + r";" + W + r"if \(" + E + r"\)" + W + r"ERREXIT\(cinfo, JERR_BUFFER_SIZE\);", "lines_per_iMCU_row and buffer test")
+cdef("wr_lines", ["max_v_samp_factor"], g.group(1), "math", "jpeg_write_raw_data: lines_per_iMCU_row")
+cdef("wr_toosmall", ["num_lines", "lines_per_iMCU_row"], g.group(2), "math", "jpeg_write_raw_data: JERR_BUFFER_SIZE test")
+B.find(r"cinfo->next_scanline \+= lines_per_iMCU_row;" + W + r"return lines_per_iMCU_row;", "next_scanline advances by one iMCU row")
+# jpeg_core_output_dimensions: the ladder of scale tests
+JM = open(repo + "/src/jdmaster.c").read()
+lad = re.findall(r"if \(cinfo->scale_num \* DCTSIZE <= cinfo->scale_denom(?: \* (\d+))?\) \{\s*/\*[^*]*\*/\s*cinfo->output_width = \(JDIMENSION\)\s*"
+                 r"jdiv_round_up\(\(long\)cinfo->image_width(?: \* (\d+)L)?, \(long\)DCTSIZE\);\s*cinfo->output_height = \(JDIMENSION\)\s*"
+                 r"jdiv_round_up\(\(long\)cinfo->image_height(?: \* (\d+)L)?, \(long\)DCTSIZE\);\s*cinfo->_min_DCT_h_scaled_size = (\d+);\s*"
+                 r"cinfo->_min_DCT_v_scaled_size = (\d+);", JM)
+m = re.search(r"\} else \{\s*/\*[^*]*\*/\s*cinfo->output_width = \(JDIMENSION\)\s*jdiv_round_up\(\(long\)cinfo->image_width \* (\d+)L, \(long\)DCTSIZE\);\s*"
+              r"cinfo->output_height = \(JDIMENSION\)\s*jdiv_round_up\(\(long\)cinfo->image_height \* (\d+)L, \(long\)DCTSIZE\);\s*"
+              r"cinfo->_min_DCT_h_scaled_size = (\d+);\s*cinfo->_min_DCT_v_scaled_size = (\d+);", JM)
+if len(lad) < 8 or not m:
+    die("jdmaster.c: the ladder of `scale_num * DCTSIZE <= scale_denom * N` tests was not recognised (%d rungs)" % len(lad))
+rungs = []
+for a, wm, hm, dh, dv in lad:
+    rungs.append((int(a or 1), int(wm or 1), int(hm or 1), int(dh), int(dv)))
+OUT.append("(* jdmaster.c jpeg_core_output_dimensions: rungs (N, width multiplier, height multiplier, min_DCT_h, min_DCT_v) of the ladder\n"
+           "   `if (scale_num * DCTSIZE <= scale_denom * N)`, in source order, and the final else branch *)")
+OUT.append("Definition lj_scale_ladder : list (Z * Z * Z * Z * Z) := [%s]." % "; ".join("(%d, %d, %d, %d, %d)" % r for r in rungs))
+OUT.append("Definition lj_scale_else : Z * Z * Z * Z := (%s, %s, %s, %s).\n" % m.groups())
+
+
+# ------------------------------------------------------------------ scratch buffers of tj3EncodeYUVPlanes8 / tj3DecodeYUVPlanes8 (unsigned int arithmetic)
+B = Body("tj3EncodeYUVPlanes8")
+g = B.find(r"_tmpbuf\[i\] = \(JSAMPLE \*\)MALLOC\(" + E + r"\);", "_tmpbuf[i] size")
+cdef("enc_tmp_size", ["width_in_blocks", "max_h_samp_factor", "h_samp_factor", "max_v_samp_factor"], g.group(1), "u32", "tj3EncodeYUVPlanes8: bytes of the colour-conversion scratch buffer")
+g = B.find(r"for \(row = 0; row < " + E + r"; row\+\+\) \{" + W + r"unsigned char \*_tmpbuf_aligned =" + W + r"\(unsigned char \*\)PAD\(\(JUINTPTR\)_tmpbuf\[i\], 32\);" + W +
+           r"tmpbuf\[i\]\[row\] = &_tmpbuf_aligned\[" + E + r"\];", "tmpbuf row pointers")
+cdef("enc_tmp_rows", ["max_v_samp_factor"], g.group(1), "math", "tj3EncodeYUVPlanes8: rows of the colour-conversion scratch buffer")
+cdef("enc_tmp_rowoff", ["width_in_blocks", "max_h_samp_factor", "h_samp_factor", "row"], g.group(2), "u32", "tj3EncodeYUVPlanes8: offset of a scratch row from the aligned base")
+g = B.find(r"_tmpbuf2\[i\] =" + W + r"\(JSAMPLE \*\)MALLOC\(" + E + r"\);", "_tmpbuf2[i] size")
+cdef("enc_tmp2_size", ["width_in_blocks", "v_samp_factor"], g.group(1), "u32", "tj3EncodeYUVPlanes8: bytes of the downsampling scratch buffer")
+g = B.find(r"for \(row = 0; row < " + E + r"; row\+\+\) \{" + W + r"unsigned char \*_tmpbuf2_aligned =" + W + r"\(unsigned char \*\)PAD\(\(JUINTPTR\)_tmpbuf2\[i\], 32\);" + W +
+           r"tmpbuf2\[i\]\[row\] =" + W + r"&_tmpbuf2_aligned\[" + E + r"\];", "tmpbuf2 row pointers")
+cdef("enc_tmp2_rows", ["v_samp_factor"], g.group(1), "math", "tj3EncodeYUVPlanes8: rows of the downsampling scratch buffer")
+cdef("enc_tmp2_rowoff", ["width_in_blocks", "row"], g.group(2), "u32", "tj3EncodeYUVPlanes8: offset of a downsampling scratch row")
+B = Body("tj3DecodeYUVPlanes8")
+g = B.find(r"_tmpbuf\[i\] =" + W + r"\(JSAMPLE \*\)malloc\(" + E + r"\);", "_tmpbuf[i] size")
+cdef("dec_tmp_size", ["width_in_blocks", "v_samp_factor"], g.group(1), "u32", "tj3DecodeYUVPlanes8: bytes of the upsampling scratch buffer")
+g = B.find(r"for \(row = 0; row < " + E + r"; row\+\+\) \{" + W + r"unsigned char \*_tmpbuf_aligned =" + W + r"\(unsigned char \*\)PAD\(\(JUINTPTR\)_tmpbuf\[i\], 32\);" + W +
+           r"tmpbuf\[i\]\[row\] =" + W + r"&_tmpbuf_aligned\[" + E + r"\];", "tmpbuf row pointers")
+cdef("dec_tmp_rows", ["v_samp_factor"], g.group(1), "math", "tj3DecodeYUVPlanes8: rows of the upsampling scratch buffer")
+cdef("dec_tmp_rowoff", ["width_in_blocks", "row"], g.group(2), "u32", "tj3DecodeYUVPlanes8: offset of an upsampling scratch row")
+
 # ------------------------------------------------------------------ copy loops of the per-plane functions
 JI = open(repo + "/src/jpegint.h").read()
 MACROS["MAX"] = define_macro(JI, "MAX")
@@ -690,12 +803,26 @@ for fn, short, io, cinfo, dimfield in (("tj3DecompressToYUVPlanes8", "dtp", "out
         cdef("dtp_copy_n", ["th_i", "ph_i", "crow_i"], g.group(1), "math", fn + ": rows copied out of the intermediate buffer")
         cdef("dtp_copy_dst", ["crow_i", "j"], g.group(2), "math", fn + ": destination row")
         cdef("dtp_copy_len", ["pw_i"], g.group(3), "math", fn + ": samples copied per row")
+        B2 = Body(fn)
+        g = B2.find(r"jpeg_read_raw_data\(dinfo, yuvptr," + W + E + r"\);", "jpeg_read_raw_data call")
+        cdef("dtp_rawlines", ["max_v_samp_factor", "_min_DCT_scaled_size"], g.group(1), "math", fn + ": lines requested from jpeg_read_raw_data")
     else:
         g = B.find(r"for \(j = 0; j < " + E + r"; j\+\+\) \{" + W + r"memcpy\(tmpbuf\[i\]\[j\], inbuf\[i\]\[" + E + r"\], " + E + r"\);", "padding copy")
         cdef("cfp_copy_n", ["th_i", "ph_i", "crow_i"], g.group(1), "math", fn + ": rows copied into the intermediate buffer")
         cdef("cfp_copy_src", ["crow_i", "j"], g.group(2), "math", fn + ": source row")
         cdef("cfp_copy_len", ["pw_i"], g.group(3), "math", fn + ": samples copied per row")
-        B.find(r"else" + W + r"yuvptr\[i\] = &inbuf\[i\]\[crow\[i\]\];", "row pointers handed to the codec")
+        g = B.find(r"for \(k = " + E + r"; k < " + E + r"; k\+\+\)" + W + r"tmpbuf\[i\]\[j\]\[k\] = tmpbuf\[i\]\[j\]\[" + E + r"\];", "column replication")
+        cdef("cfp_pad_from", ["pw_i"], g.group(1), "math", fn + ": first replicated column")
+        cdef("cfp_pad_to", ["iw_i"], g.group(2), "math", fn + ": end of the replicated columns")
+        cdef("cfp_pad_src", ["pw_i"], g.group(3), "math", fn + ": column that is replicated")
+        g = B.find(r"for \(j = " + E + r"; j < " + E + r"; j\+\+\)" + W + r"memcpy\(tmpbuf\[i\]\[j\], tmpbuf\[i\]\[" + E + r"\], " + E + r"\);", "row replication")
+        cdef("cfp_dup_from", ["ph_i", "crow_i"], g.group(1), "math", fn + ": first replicated row of the intermediate buffer")
+        cdef("cfp_dup_to", ["th_i"], g.group(2), "math", fn + ": end of the replicated rows")
+        cdef("cfp_dup_src", ["ph_i", "crow_i"], g.group(3), "math", fn + ": row that is replicated")
+        cdef("cfp_dup_len", ["iw_i"], g.group(4), "math", fn + ": samples replicated per row")
+        B.find(r"yuvptr\[i\] = tmpbuf\[i\];" + W + r"\} else" + W + r"yuvptr\[i\] = &inbuf\[i\]\[crow\[i\]\];", "row pointers handed to the codec")
+        g = B.find(r"jpeg_write_raw_data\(cinfo, yuvptr, " + E + r"\);", "jpeg_write_raw_data call")
+        cdef("cfp_rawlines", ["max_v_samp_factor"], g.group(1), "math", fn + ": lines passed to jpeg_write_raw_data")
 
 OUT.append("(* the unified-buffer functions whose statements were translated above *)")
 OUT.append("Definition unified_fns : list uni_fn := [%s]." % "; ".join("u" + s for s in uni_names))
